@@ -20,7 +20,9 @@ SCRATCH = os.path.join(BUILD, 'c17_%d' % os.getpid())
 
 RULE = ('networks with 1-5 nodes (serial / assembly / distribution / random DAG, arbitrary node indices), single-product (dummy products) or '
         'multi-product (1-3 products per node, shared products, BOM numbers, network-level local products); every numeric attribute '
-        'unset / None / scalar / product-keyed dict; lead times; GSM attributes; inventory policy (BS, sS, rQ, FQ, EBS, BEBS, None type) as singleton, '
+        'unset / None / scalar / product-keyed dict (all or some of the node\'s products as keys; entries numbers, or explicit None for some / all keys '
+        '= "no value for this product at this node", which get_attribute() returns in preference to the product-level value, then usually with a '
+        'different value of the same attribute set on the product so that the entry decides what the simulator sees; or the empty dict); lead times; GSM attributes; inventory policy (BS, sS, rQ, FQ, EBS, BEBS, None type) as singleton, '
         'product-keyed dict or product-level object; demand source (N, P, UD, UC, NB, D, CD) likewise; disruption process (default, None, Markov or '
         'explicit, OP/SP/TP/RP) ; with and without saved state variables (a short simulation is run first). For every network: '
         'to_dict->from_dict, to_dict->json->from_dict, save_instance->load_instance (with / without state variables); histories on one dict object '
@@ -143,7 +145,15 @@ def gen_spec(rng, sim=None, multi=None, nmax=5):
         def pk_or_scalar(gen, allow_pk=True):
             if prods and allow_pk and rng.random() < 0.4:
                 ks = prods if rng.random() < 0.7 else rng.sample(prods, rng.randint(1, len(prods)))
-                return {'pk': {str(k): gen() for k in ks}}
+                pk = {str(k): gen() for k in ks}
+                # entries of a product-keyed dict may be an explicit None: get_attribute() returns the entry of a key that is present,
+                # so None there means "no value for this product at this node" and hides whatever the product itself says
+                # (forms: some entries None, all entries None, the empty dict = every product falls back to product level)
+                r = rng.random()
+                if r < 0.3:
+                    for k in (ks if r < 0.05 else rng.sample(ks, rng.randint(1, len(ks)))): pk[str(k)] = None
+                elif r < 0.34: pk = {}
+                return {'pk': pk}
             return gen()
         for a in NUM_ATTRS:
             r = rng.random()
@@ -186,7 +196,9 @@ def gen_spec(rng, sim=None, multi=None, nmax=5):
         for k in spec['products'][i]:
             pa = spec['prod_attrs'].setdefault(k, {})
             for a in NUM_ATTRS + ([] if sim else LT_ATTRS):
-                if rng.random() < 0.25:
+                # a node-level entry None for (i, k) is usually paired with a value at product level, so that losing / altering the
+                # entry changes what get_attribute() resolves to and what the simulator does
+                if rng.random() < (0.85 if none_entry(spec['node_attrs'][i].get(a), k) else 0.25):
                     pa[a] = rng.randint(0, 3) if a in LT_ATTRS else numval(rng)
                     if a in ('initial_orders', 'initial_shipments', 'initial_inventory_level'): pa[a] = int(pa[a])
                     if a == 'order_capacity' and pa[a] == 0: pa[a] = 4
@@ -197,6 +209,28 @@ def gen_spec(rng, sim=None, multi=None, nmax=5):
             if isinstance(d, dict) and 'pk' not in d and len(spec['products'][i]) > 1 and rng.random() < 0.5 and 'demand_source' not in pa:
                 pa['demand_source'] = gen_demand(rng, T)
     return spec
+
+
+def none_entry(v, k):
+    """v (a node attribute of a spec) is a product-keyed dict whose entry for product k is an explicit None"""
+    return isinstance(v, dict) and 'pk' in v and str(k) in v['pk'] and v['pk'][str(k)] is None
+
+
+def pk_classes(spec):
+    """input classes of the product-keyed plain attribute dicts of a spec (for the histogram)"""
+    out = set()
+    for i in spec['nodes']:
+        for a, v in (G(spec['node_attrs'], i) or {}).items():
+            if not (isinstance(v, dict) and 'pk' in v): continue
+            pk = v['pk']
+            if not pk: out.add('pk_dict_empty'); continue
+            if any(x is None for x in pk.values()):
+                out.add('pk_dict_all_entries_None' if all(x is None for x in pk.values()) else 'pk_dict_some_entries_None')
+                for k, x in pk.items():
+                    if x is None and (G(spec['prod_attrs'], int(k)) or {}).get(a) is not None:
+                        out.add('pk_dict_None_entry_hides_product_level_value'); out.add('pk_None_entry_hides_product_value:%s' % a)
+            if set(pk) != {str(k) for k in (G(spec['products'], i) or [])}: out.add('pk_dict_partial_key_set')
+    return out
 
 
 def G(d, i):
@@ -1103,6 +1137,7 @@ def explore(chk, sch, n, n_model, n_seq, do_model=True):
                     chk.count('presim=raises'); net = build(spec); spec['presim'] = False
             chk.count('nodes=%d' % len(spec['nodes'])); chk.count('multi=%s' % spec['multi']); chk.count('shape=%s' % spec['shape'])
             chk.count('state_vars=%s' % bool(spec['presim'] and spec['sim']))
+            for cl in sorted(pk_classes(spec)): chk.count(cl)
             for sig, msg in roundtrip_oracle(chk, case, spec, net, files):
                 chk.fail(sig, msg, case)
             if any(nd.state_vars for nd in net.nodes):
